@@ -867,3 +867,32 @@ def r04_15(ctx):
                 ext[ast.unparse(c.func.value)] = re.sub(r"\w+\['[XZ]i'\]", "@", Norm(ctx.scope(g), alias_only=True).key(c.args[0]))
         ctx.check(len(ext) == 2 and ext.get("self.xk") == ext.get("self.zk"), "%s stores state and algebraic columns under the same integrator-point index" % cname, detail="xk / zk indexing differs",
                   expected="xk.extend([Xi[:,i] for i in range(M)]); zk.extend([Zi[:,i] for i in range(M)])", found=str(ext), fi=g)
+
+
+@rule("R04.16", min_instances=8, desc="include_first / include_last of a path constraint are read by every method that places path constraints (an option stored by subject_to and read by nobody is silently ignored)")
+def r04_16(ctx):
+    prog = ctx.prog
+    for cname in METHODS:
+        if not prog.has_cls(cname):
+            continue
+        root = prog.method(cname, "add_constraints")
+        seen, _ = prog.reachable([root], concrete=cname, max_depth=3, stop=lambda f: f.cls is None)
+        keys = {}
+        places = False
+        for f in seen.values():
+            if f.cls is None:
+                continue
+            loops_over_path = any(isinstance(l, (ast.For, ast.comprehension)) and constraint_grids(l.iter) and set(constraint_grids(l.iter)) & {"control", "integrator"} for l in ast.walk(f.node))
+            if not loops_over_path:
+                continue
+            places = True
+            for x in ast.walk(f.node):
+                if isinstance(x, ast.Subscript) and isinstance(x.slice, ast.Constant) and isinstance(x.slice.value, str) and isinstance(x.value, ast.Name):
+                    keys.setdefault(x.slice.value, f)
+        if not places:
+            raise AnalysisError("%s: no loop over the declared path constraints found" % cname)
+        for opt in ("include_first", "include_last"):
+            ctx.check(opt in keys, "%s reads %s of the path constraints it places" % (cname, opt),
+                      detail="option stored by subject_to and never read: the constraint is imposed at the %s point although the user excluded it" % ("first" if opt == "include_first" else "last"),
+                      expected="args['%s'] consulted (skip the point) or a False value rejected" % opt, found="options read: %s" % sorted(k for k in keys if k in ("include_first", "include_last", "scale", "refine", "group_refine")), fi=root,
+                      sample={"method": cname, "options_read": sorted(keys)})
